@@ -107,6 +107,41 @@ def replaced_binding_desc(rng, k=3):
     return d
 
 
+def elements_only_desc(rng, k=4):
+    """a project that declares its elements and *no* pseudo-elements (`--pseudo-elements=''`, as `naunet example` passes it for the
+    minimal example): the generic third body `M` is an element here, although it is a pseudo-element of the default list"""
+    d = gen_desc(rng, k)
+    while d["replacement"]:
+        d = gen_desc(rng, k)
+    lines = [native(1, ["H", "H", "M"], ["H2", "M"]), native(2, ["C", "O"], ["CO"]), native(3, ["CO", "M"], ["C", "O", "M"]),
+             native(4, ["H2", "O"], ["OH", "H"])]
+    d["elements"], d["pseudo"] = ["H", "C", "O", "M"], []
+    d["files"] = [["\n".join(lines) + "\n", "naunet"]]
+    d["allowed"], d["required"], d["cooling"], d["shielding"], d["rate_modifier"], d["ode_modifier"] = [], [], [], {}, {}, {}
+    d.pop("ode_modifier_terms", None)
+    return d
+
+
+def grain_species_desc(rng, k=4):
+    """a network that carries its grains as species (charge states GRAIN0 / GRAIN-), cation-grain recombination and electron
+    capture under the hh93 model, written with the cation first - the order the Leeds database and the API examples use, and
+    not the order the native writer (names sorted) gives back"""
+    d = gen_desc(rng, k)
+    while d["replacement"]:
+        d = gen_desc(rng, k)
+    lines = [native(1, ["H", "H"], ["H2"]), native(2, ["H", "CR"], ["H+", "e-"], ty=101), native(3, ["He", "CR"], ["He+", "e-"], ty=101),
+             native(4, ["H+", "GRAIN-"], ["H", "GRAIN0"], a=1.0, ty=220), native(5, ["He+", "GRAIN-"], ["He", "GRAIN0"], a=1.0, ty=220),
+             native(6, ["C+", "GRAIN-"], ["C", "GRAIN0"], a=1.0, ty=220), native(7, ["e-", "GRAIN0"], ["GRAIN-"], a=1.0, ty=221),
+             native(8, ["Si+", "GRAIN-"], ["Si", "GRAIN0"], a=1.0, ty=220), native(9, ["C", "CR"], ["C+", "e-"], ty=101),
+             native(10, ["Si", "CR"], ["Si+", "e-"], ty=101)]
+    d["kwargs"] = {"grain_symbol": "GRAIN", "surface_prefix": "#", "bulk_prefix": "@"}
+    d["files"] = [["\n".join(lines) + "\n", "naunet"]]
+    d["grain_model"], d["allowed"], d["required"], d["cooling"], d["shielding"] = "hh93", [], [], [], {}
+    d["rate_modifier"], d["ode_modifier"], d["binding"], d["yield"] = {}, {}, {}, {}
+    d.pop("ode_modifier_terms", None)
+    return d
+
+
 def option_string(d, name):
     """the option syntax exactly as `naunet example` composes it"""
     kw = d["kwargs"]
@@ -198,6 +233,8 @@ def run(argv):
             d["ode_modifier_terms"], d["ode_modifier_cuts"] = terms, [1, 2]
         if k == 3:
             d = replaced_binding_desc(rng, k)
+        if k == 4:
+            d = elements_only_desc(rng, k)
         descs.append(d)
     ex_cases = [4, 5, 7, 8, 11] if tier == "quick" else [0, 1, 3, 4, 5, 6, 7, 8, 9, 10, 11, 16, 17, 18]
     process(chk, descs, ex_cases)
